@@ -19,9 +19,14 @@ Two runs are linked by `RF.Model.Idem`: the second run reads what the first wrot
 only thing the rendering changes in the *shape* of a tree is that a tree with an empty path is written
 as nothing (`reparseItems`); `runTwice` is the `use` arm run on its own (re-read) output.
 
+Repaired in `/repo` (fix 343f709, found by C10 and by this file's former `useNormalize_idem_counterexample`):
+`use a::{b::{}, c};` needed two passes with the **default** configuration (`use a::{ c};` then
+`use a::c;`) because `normalize` left the nested `b::{}` as a tree with an empty path.  `normalize` now
+removes such an element and normalises the list again, so the `leafyPath` hypothesis ("no `{}` anywhere")
+of the `normalize` and whole-`use`-arm theorems is **gone** and the two counterexamples are replaced by
+the proved fixed points `useNormalize_empty_nested_fixed` / `run_idem_empty_nested`.
+
 Findings (every one replayed on `/repo/target/debug/rustfmt`, see the `_counterexample`s):
-  * `use a::{b::{}, c};` needs two passes with the **default** configuration
-    (`use a::{ c};` then `use a::c;`): `useNormalize_idem_counterexample`;
   * `use self::self;` becomes `use self;`, which the next pass deletes: `useNormalize_self_self_counterexample`;
   * `imports_granularity = One`: `use a::{b, b::c}; use a;` gives `use a::{self, b, b::c};` and then
     `use a::{self, b::{self, c}};` — legal Rust, satisfies the C10 safety hypothesis:
@@ -80,21 +85,21 @@ theorem itemSort_idem (v2024 : Bool) (k : RF.Reorder.ItemKind) (l : List RF.Reor
 /-! ## (i) `UseTree::normalize` -/
 
 /-- `normalize` applied to its own result returns it unchanged: for every total preorder used for the
-nested sorts, every item as the parser builds it (`wfPath`) without `{}` anywhere (`leafyPath`),
-provided the result is written at all (non-empty path) and is not the bare `use self;` that the next
-pass deletes. -/
+nested sorts and **every** item as the parser builds it (`wfPath`; `{}` may occur anywhere), provided the
+result is written at all (non-empty path) and is not the bare `use self;` that the next pass deletes.
+Strengthened after the repair of `normalize` (a nested tree that imports nothing is removed and the list
+normalised again): the former hypothesis `leafyPath it.tree.path` is no longer needed. -/
 theorem useNormalize_idem_partial {cmp : Tree → Tree → Ordering} (tp : TotalPreorder cmp)
     (it it' : Item) (h : normalizeItem cmp it = .ok it') (hwf : wfPath true it.tree.path = true)
-    (hleafy : leafyPath it.tree.path = true) (hne : it'.tree.path ≠ [])
-    (hb : bareSelf it' = false) : normalizeItem cmp it' = .ok it' :=
-  normalizeItem_idem tp it it' h (by simp [okPath, hwf, hleafy]) hne hb
+    (hne : it'.tree.path ≠ []) (hb : bareSelf it' = false) : normalizeItem cmp it' = .ok it' :=
+  normalizeItem_idem tp it it' h hwf hne hb
 
 /-- Instance for the real order, both style-edition families. -/
 theorem useNormalize_idem (v2024 : Bool) (it it' : Item)
     (h : normalizeItem (treeCmp v2024) it = .ok it') (hwf : wfPath true it.tree.path = true)
-    (hleafy : leafyPath it.tree.path = true) (hne : it'.tree.path ≠ [])
-    (hb : bareSelf it' = false) : normalizeItem (treeCmp v2024) it' = .ok it' :=
-  useNormalize_idem_partial (treeCmp_tp v2024) it it' h hwf hleafy hne hb
+    (hne : it'.tree.path ≠ []) (hb : bareSelf it' = false) :
+    normalizeItem (treeCmp v2024) it' = .ok it' :=
+  useNormalize_idem_partial (treeCmp_tp v2024) it it' h hwf hne hb
 
 /-- Non-vacuity: `use a::{c::{d}, self as x, b::self};` satisfies the hypotheses; its normal form is
 `use a::{self as x, b, c::d};`. -/
@@ -103,32 +108,44 @@ example :
       .mk [i 'b', .slf none]]]
     let it' := use [i 'a', .list [.mk [.slf (some (n 'x'))], .mk [i 'b'], .mk [i 'c', i 'd']]]
     normalizeItem (treeCmp false) it = .ok it' ∧ wfPath true it.tree.path = true ∧
-      leafyPath it.tree.path = true ∧ it'.tree.path ≠ [] ∧ bareSelf it' = false := by
+      it'.tree.path ≠ [] ∧ bareSelf it' = false := by
   decide +kernel
 
-/-- … and under the same hypotheses the result has no nested tree with an empty path, so the second
-run reads back exactly the tree the first run returned. -/
-theorem useNormalize_read_back {cmp : Tree → Tree → Ordering} (it it' : Item)
-    (h : normalizeItem cmp it = .ok it') (hwf : wfPath true it.tree.path = true)
-    (hleafy : leafyPath it.tree.path = true) : reparseTree it'.tree = it'.tree :=
-  normalizeItem_reparse it it' h (by simp [okPath, hwf, hleafy])
+/-- Non-vacuity with `{}` inside (not `leafyPath`): `use a::{b::{}, c::{d, e::{}}, self as x, f::{g::{}}};`
+is normalised to `use a::{self as x, c::d};`. -/
+example :
+    let it := use [i 'a', .list [.mk [i 'b', .list []],
+      .mk [i 'c', .list [.mk [i 'd'], .mk [i 'e', .list []]]], .mk [.slf (some (n 'x'))],
+      .mk [i 'f', .list [.mk [i 'g', .list []]]]]]
+    let it' := use [i 'a', .list [.mk [.slf (some (n 'x'))], .mk [i 'c', i 'd']]]
+    normalizeItem (treeCmp false) it = .ok it' ∧ wfPath true it.tree.path = true ∧
+      leafyPath it.tree.path = false ∧ it'.tree.path ≠ [] ∧ bareSelf it' = false := by
+  decide +kernel
 
-/-- **Finding.**  Without `leafyPath`: `use a::{b::{}, c};` is normalised to `a::{<empty>, c}`; the empty
-tree is written as nothing (`use a::{ c};` on the binary), so the second run reads `a::{c}` and
-normalises it to `a::c` (`use a::c;`).  Default configuration; legal Rust. -/
-theorem useNormalize_idem_counterexample :
+/-- … and the result has no nested tree with an empty path, so the second run reads back exactly the
+tree the first run returned (every item as the parser builds it; `leafyPath` no longer needed). -/
+theorem useNormalize_read_back {cmp : Tree → Tree → Ordering} (it it' : Item)
+    (h : normalizeItem cmp it = .ok it') (hwf : wfPath true it.tree.path = true) :
+    reparseTree it'.tree = it'.tree :=
+  normalizeItem_reparse it it' h hwf
+
+/-- **Repaired** (was `useNormalize_idem_counterexample`: `a::{<empty>, c}`, written `use a::{ c};`, then
+`use a::c;`).  `use a::{b::{}, c};` is now normalised to `a::c` at once; that is read back as it is and
+is a fixed point.  The input is well formed and not `leafyPath`. -/
+theorem useNormalize_empty_nested_fixed :
     let it := use [i 'a', .list [.mk [i 'b', .list []], .mk [i 'c']]]
-    normalizeItem (treeCmp false) it = .ok (use [i 'a', .list [.mk [], .mk [i 'c']]]) ∧
-    reparseItems [use [i 'a', .list [.mk [], .mk [i 'c']]]] = [use [i 'a', .list [.mk [i 'c']]]] ∧
-    normalizeItem (treeCmp false) (use [i 'a', .list [.mk [i 'c']]]) = .ok (use [i 'a', i 'c']) ∧
+    normalizeItem (treeCmp false) it = .ok (use [i 'a', i 'c']) ∧
+    reparseItems [use [i 'a', i 'c']] = [use [i 'a', i 'c']] ∧
+    normalizeItem (treeCmp false) (use [i 'a', i 'c']) = .ok (use [i 'a', i 'c']) ∧
     wfPath true it.tree.path = true ∧ leafyPath it.tree.path = false := by
   decide +kernel
 
-/-- The same through the whole `use` arm (default options: `Preserve`, `StdExternalCrate`… any). -/
-theorem run_idem_counterexample_empty_nested :
+/-- The same through the whole `use` arm (was `run_idem_counterexample_empty_nested`): both runs write
+`use a::c;`. -/
+theorem run_idem_empty_nested :
     runTwice (treeCmp false) .preserve .stdExternalCrate true
         [use [i 'a', .list [.mk [i 'b', .list []], .mk [i 'c']]]] =
-      .ok ([[use [i 'a', .list [.mk [i 'c']]]]], [[use [i 'a', i 'c']]]) := by
+      .ok ([[use [i 'a', i 'c']]], [[use [i 'a', i 'c']]]) := by
   decide +kernel
 
 /-- **Finding.**  Without the `bareSelf` hypothesis: `use self::self;` (parsed; rejected by rustc,
@@ -161,12 +178,28 @@ example : flatLast (use [i 'a', i 'b', .slf none]).tree.path = true := by decide
 theorem nest_trailing_self_idem (x : Item) : nestItem (nestItem x) = nestItem x :=
   nestItem_idem x
 
-/-- `flatten_use_trees` (flatten every item, nest, `unique()`) applied to its own output is the
-identity, for items as the parser builds them. -/
+/-- `flatten_use_trees` (flatten every item, nest, drop an import that `is_repeated_by` an earlier
+kept one) applied to its own output is the identity, for items as the parser builds them. -/
 theorem flattenUseTrees_idem (g : Granularity) (its : List Item)
     (hwf : ∀ it ∈ its, wfPath true it.tree.path = true) :
     flattenUseTrees g (flattenUseTrees g its) = flattenUseTrees g its :=
   RF.Lemmas.Idem.flattenUseTrees_idem g its hwf
+
+/-- What makes the second application the identity: in the output of `flatten_use_trees` no import
+`is_repeated_by` an earlier one (every list, no hypothesis) … -/
+theorem flattenUseTrees_no_repeat (g : Granularity) (its : List Item) :
+    (flattenUseTrees g its).Pairwise (fun a b => isRepeatedBy a b = false) :=
+  dedupItems_pairwise _ [] List.Pairwise.nil
+
+/-- … and the loop of `flatten_use_trees` returns such a list as it is. -/
+theorem dedup_fixed (l : List Item) (h : l.Pairwise (fun a b => isRepeatedBy a b = false)) :
+    dedupItems l [] = l := by
+  have h' : ([] ++ l).Pairwise NoRep := by rw [List.nil_append]; exact h
+  simpa using dedupItems_of_pairwise l [] h'
+
+example : [use [i 'a'], (⟨.mk [i 'a'], some "pub".toList, none, false⟩ : Item),
+    (⟨.mk [i 'a'], some [], some (n 'x'), false⟩ : Item)].Pairwise
+      (fun a b => isRepeatedBy a b = false) := by decide
 
 /-! ## (i) `normalize_use_trees_with_granularity` -/
 
@@ -244,34 +277,35 @@ theorem groupImports_idem (ts : List Item) :
 
 /-- `imports_granularity = Preserve` (the default), every `group_imports`, `reorder_imports` on or
 off, both style editions (any total preorder): the `use` arm run on what it wrote writes the same
-groups, the same items in the same order.  Hypotheses: every input item is as the parser builds it and
-has no `{}`; no normalised item is the bare `use self;` (see the two counter-examples above). -/
+groups, the same items in the same order.  Hypotheses: every input item is as the parser builds it
+(`{}` allowed anywhere since the repair of `normalize`: the former `leafyPath` hypothesis is gone); no
+normalised item is the bare `use self;` (see the counter-example above). -/
 theorem run_idem_preserve {cmp : Tree → Tree → Ordering} (tp : TotalPreorder cmp) (gt : GroupTactic)
     (reorder : Bool) (items normalized : List Item)
     (hn : mapE (normalizeItem cmp) items = .ok normalized)
-    (hwf : ∀ it ∈ items, wfPath true it.tree.path = true ∧ leafyPath it.tree.path = true)
+    (hwf : ∀ it ∈ items, wfPath true it.tree.path = true)
     (hb : ∀ it ∈ normalized, bareSelf it = false) :
     ∃ groups, runTwice cmp .preserve gt reorder items = .ok (groups, groups) :=
-  RF.Lemmas.Idem.run_idem_preserve tp gt reorder items normalized hn
-    (fun it hit => by simp [okPath, (hwf it hit).1, (hwf it hit).2]) hb
+  RF.Lemmas.Idem.run_idem_preserve tp gt reorder items normalized hn hwf hb
 
 /-- `imports_granularity = Item`, every `group_imports`, `reorder_imports` on or off, any total preorder:
-the `use` arm run on what it wrote writes the same groups.  Only the input hypotheses; no condition on
-`self` (after `nest_trailing_self` no item is the bare `use self;`). -/
+the `use` arm run on what it wrote writes the same groups.  Only the input hypothesis (as the parser
+builds it; `leafyPath` no longer needed); no condition on `self` (after `nest_trailing_self` no item is
+the bare `use self;`).  The de-duplication is the repaired one (`is_repeated_by`: same path, same
+visibility, no attributes, no comments). -/
 theorem run_idem_item {cmp : Tree → Tree → Ordering} (tp : TotalPreorder cmp) (gt : GroupTactic)
     (reorder : Bool) (items normalized : List Item)
     (hn : mapE (normalizeItem cmp) items = .ok normalized)
-    (hwf : ∀ it ∈ items, wfPath true it.tree.path = true ∧ leafyPath it.tree.path = true) :
+    (hwf : ∀ it ∈ items, wfPath true it.tree.path = true) :
     ∃ groups, runTwice cmp .item gt reorder items = .ok (groups, groups) :=
-  RF.Lemmas.Idem.run_idem_item tp gt reorder items normalized hn
-    (fun it hit => by simp [okPath, (hwf it hit).1, (hwf it hit).2])
+  RF.Lemmas.Idem.run_idem_item tp gt reorder items normalized hn hwf
 
 /-- Non-vacuity: `use a::{self, b::{c, *}}; use a::b::c as x;` -/
 example :
     let items := [use [i 'a', .list [.mk [.slf none], .mk [i 'b', .list [.mk [i 'c'], .mk [.glob]]]]],
       use [i 'a', i 'b', ia 'c' 'x']]
     mapE (normalizeItem (treeCmp false)) items = .ok items ∧
-      (∀ it ∈ items, wfPath true it.tree.path = true ∧ leafyPath it.tree.path = true) ∧
+      (∀ it ∈ items, wfPath true it.tree.path = true) ∧
       runTwice (treeCmp false) .item .stdExternalCrate true items =
         .ok ([[use [i 'a', i 'b', i 'c'], use [i 'a', i 'b', ia 'c' 'x'], use [i 'a', i 'b', .glob],
                use [i 'a', .list [.mk [.slf none]]]]],
@@ -279,20 +313,51 @@ example :
                use [i 'a', .list [.mk [.slf none]]]]]) := by
   decide +kernel
 
-/-- `normalize` keeps the two input hypotheses (so they hold of what the second run reads). -/
-theorem useNormalize_keeps_wf {cmp : Tree → Tree → Ordering} (it it' : Item)
-    (h : normalizeItem cmp it = .ok it') (hwf : wfPath true it.tree.path = true)
-    (hleafy : leafyPath it.tree.path = true) :
-    wfPath true it'.tree.path = true ∧ leafyPath it'.tree.path = true := by
-  have := normalizeItem_okPath it it' h (by simp [okPath, hwf, hleafy])
-  simpa [okPath] using this
-
-/-- Non-vacuity: `use std::{b, a::self}; use a::{self}; use crate::x as y;` -/
+/-- Non-vacuity with `{}` and with the repaired de-duplication:
+`use a::{b::{}, c}; pub use a::c; use a::{c, d::{e::{}}};` under `Item` is written
+`use a::c; pub use a::c;` by both runs (the third declaration repeats the first: same path, same
+visibility; the `pub` one does not and is kept — `unique()` used to drop it). -/
 example :
-    let items := [use [.ident "std".toList none, .list [.mk [i 'b'], .mk [i 'a', .slf none]]],
+    let items := [use [i 'a', .list [.mk [i 'b', .list []], .mk [i 'c']]],
+      (⟨.mk [i 'a', i 'c'], some "pub".toList, none, false⟩ : Item),
+      use [i 'a', .list [.mk [i 'c'], .mk [i 'd', .list [.mk [i 'e', .list []]]]]]]
+    (∀ it ∈ items, wfPath true it.tree.path = true) ∧
+      runTwice (treeCmp false) .item .stdExternalCrate true items =
+        .ok ([[use [i 'a', i 'c'], ⟨.mk [i 'a', i 'c'], some "pub".toList, none, false⟩]],
+             [[use [i 'a', i 'c'], ⟨.mk [i 'a', i 'c'], some "pub".toList, none, false⟩]]) := by
+  decide +kernel
+
+/-- `normalize` keeps the input hypothesis `wfPath` (so it holds of what the second run reads), and
+the result has no `{}` left when the input had none or the declaration has no attributes
+(`#[a] use b::{};` is kept as it is).  Strengthened: the former statement needed `leafyPath` of the
+input for both parts. -/
+theorem useNormalize_keeps_wf {cmp : Tree → Tree → Ordering} (it it' : Item)
+    (h : normalizeItem cmp it = .ok it') (hwf : wfPath true it.tree.path = true) :
+    wfPath true it'.tree.path = true ∧
+      (leafyPath it.tree.path = true ∨ it.attrs = none → leafyPath it'.tree.path = true) := by
+  obtain ⟨hp, -⟩ := normalizeItem_path h
+  refine ⟨normPath_wf _ _ _ _ _ _ true hp hwf, ?_⟩
+  rintro (hleafy | hattrs)
+  · have := normalizeItem_okPath it it' h (by simp [okPath, hwf, hleafy])
+    simp only [okPath, Bool.and_eq_true] at this
+    exact this.2
+  · exact normPath_leafy _ _ _ _ _ _ true (by simp [hattrs]) hp hwf
+
+/-- Without either: `#[x] use a::{b::{}, c::{}};` keeps an empty list (`#[x] use a::{};`), which is a
+fixed point all the same. -/
+theorem useNormalize_attrs_keeps_empty_list :
+    let it : Item := ⟨.mk [i 'a', .list [.mk [i 'b', .list []], .mk [i 'c', .list []]]], some [], some (n 'x'), false⟩
+    let it' : Item := ⟨.mk [i 'a', .list []], some [], some (n 'x'), false⟩
+    normalizeItem (treeCmp false) it = .ok it' ∧ leafyPath it'.tree.path = false ∧
+      normalizeItem (treeCmp false) it' = .ok it' := by
+  decide +kernel
+
+/-- Non-vacuity: `use std::{b, a::self, c::{}}; use a::{self}; use crate::x as y;` -/
+example :
+    let items := [use [.ident "std".toList none, .list [.mk [i 'b'], .mk [i 'a', .slf none], .mk [i 'c', .list []]]],
       use [i 'a', .list [.mk [.slf none]]], use [.crate none, ia 'x' 'y']]
     ∃ normalized, mapE (normalizeItem (treeCmp true)) items = .ok normalized ∧
-      (∀ it ∈ items, wfPath true it.tree.path = true ∧ leafyPath it.tree.path = true) ∧
+      (∀ it ∈ items, wfPath true it.tree.path = true) ∧
       (∀ it ∈ normalized, bareSelf it = false) :=
   ⟨[use [.ident "std".toList none, .list [.mk [i 'a'], .mk [i 'b']]],
     use [i 'a', .list [.mk [.slf none]]], use [.crate none, ia 'x' 'y']],
